@@ -81,7 +81,7 @@ SPECS = {
         jobfn=with_prior_call_or_abort,
         invs=['A_C02_RealResult'], props=['A_C02_SubmitAfterDeps', 'A_C02_RunAfterDeps', 'A_C02_StartAfterSubmit'],
         fam=dict(quick=[dict(n=3, ntypes=1, maxpars=(UNL,), maxws=(1, 2), backends=('fork', 'spawn', 'serial'),
-                             cached='none', reqs='subsets', fails='singles', cofs=(True, False)),
+                             cached='none', reqs='subsets', fails='singles', cofs=(True, False), tcache_opts=[(True,), (False,)]),
                         dict(n=3, ntypes=1, maxpars=(UNL,), maxws=(2,), backends=('fork', 'serial'), cached='all-subsets',
                              reqs='roots', badloads='singles', nonempty_deps=True),
                         dict(n=3, ntypes=1, maxpars=(UNL,), maxws=(2,), backends=('fork', 'serial'), cached='all-subsets',
